@@ -654,6 +654,9 @@ def _subject(ctx, idx):
     del objects.GIVEN_UIDS[:]
     objects.NON_LATIN1 = _open_finding_known('C20-non-latin1-text-unwritable')
     s = f(r, ctx.np_rng('subject', idx))
+    s['container_forms'] = objects.vary_containers(s['inputs'], ctx.rng('containers', idx))
+    for form in s['container_forms'].values():
+        ctx.hist('container_form', form)
     s['given_uids'] = set(objects.GIVEN_UIDS)
     return s
 
